@@ -155,6 +155,7 @@ def _anc13(n):
 
 
 def run(ctx: Ctx) -> None:
+    rule_unwrap_source(ctx)
     from .c12 import rule_nodekeys
     rule_nodekeys(ctx)  # remove_identity / unwrap_nodes select nodes through node_dict: the index must follow add / remove / replace
     rule_remove_identity_scope(ctx)
@@ -204,7 +205,50 @@ def _edit_replace_after_store(src: str) -> str:
     return src[:a] + src[b:end] + removal + src[end:]
 
 
+def rule_unwrap_source(ctx: Ctx) -> None:
+    """unwrap.source: unwrap_nodes replaces every wrapper node by the operations its unwrap() returns — that method is where each gate gets
+    its register and *its share of the wrapper's noise*.  An operation that unwrap_nodes builds itself (from a class of
+    `wrapper.operations`) has default noise, so a noisy wrapper no longer compiles to the same state after unwrapping."""
+    import ast as _ast
+    from ..core import call_attr as _ca, calls_in as _calls, norm as _norm, short as _short, parent as _parent
+    repo = ctx.repo
+    DAGF = "graphiq/circuit/circuit_dag.py"
+    m = repo.module(DAGF)
+    fn = repo.anchor(DAGF, "CircuitDAG.unwrap_nodes")
+    ctx.touch(m, fn)
+    defs = {}
+    for a in _ast.walk(fn):
+        if isinstance(a, _ast.Assign) and len(a.targets) == 1 and isinstance(a.targets[0], _ast.Name):
+            defs.setdefault(a.targets[0].id, []).append(a.value)
+        if isinstance(a, _ast.For) and isinstance(a.target, _ast.Name):
+            defs.setdefault(a.target.id, []).append(a.iter)
+
+    def from_unwrap(e, d=0) -> bool:
+        if d > 4:
+            return False
+        if isinstance(e, _ast.Call) and _ca(e) == "unwrap":
+            return True
+        if isinstance(e, _ast.Subscript):
+            return from_unwrap(e.value, d + 1)
+        if isinstance(e, _ast.Name) and e.id in defs:
+            return all(from_unwrap(v, d + 1) for v in defs[e.id])
+        return False
+    sites = [c for c in _calls(fn) if _ca(c) in ("insert_at", "replace_op", "add", "_insert_at") and c.args]
+    if not sites:
+        raise AnalysisError("unwrap_nodes: no insertion of the unwrapped operations found")
+    for c in sites:
+        arg = c.args[1] if _ca(c) == "replace_op" and len(c.args) > 1 else c.args[0]
+        if from_unwrap(arg):
+            ctx.ok("unwrap.source", m, c, what="inserted operation comes from the wrapper's unwrap()")
+        else:
+            ctx.fail("unwrap.source", m, c,
+                     f"unwrap_nodes puts `{_short(arg, 50)}` into the circuit, which does not come from the wrapper's unwrap(): an operation built from the "
+                     f"gate class alone carries no noise, so a wrapper with noise (one Pauli-Z error, say) loses it when the circuit is unwrapped",
+                     func="CircuitDAG.unwrap_nodes", construct=f"unwrap_nodes: {_ca(c)}({_short(arg, 40)}) not from unwrap()")
+
+
 KNOCKOUTS = [
+    Knockout("unwrap-single-gate-fast-path", "graphiq/circuit/circuit_dag.py", sub_once('                op_list = self.dag.nodes[node]["op"].unwrap()\n', '                wrapper = self.dag.nodes[node]["op"]\n                if len(wrapper.operations) == 1:\n                    self.replace_op(node, wrapper.operations[0](register=wrapper.register, reg_type=wrapper.reg_type))\n                    continue\n                op_list = wrapper.unwrap()\n'), "unwrap.source", "not from unwrap"),
     Knockout("replace-op-unregisters-after-store", "graphiq/circuit/circuit_dag.py", _edit_replace_after_store, "sibling.nodekeys", "replace_op"),
     Knockout("identity-wrapper-magnitudes", DAG, _identity_wrappers, "identity.scope", "any diagonal unitary"),
     Knockout("noise-masked-in-place", CBASE, sub_nth("                            tmp_noise = [op.noise[0], nm.NoNoise]\n                            op.noise = tmp_noise\n", "                            op.noise[1] = nm.NoNoise\n", 0), "effect.stale-swap-read", "in-place store"),
